@@ -272,6 +272,9 @@ func (ex *Exec) call(fr *Frame, st *State, instr ssa.Value, com *ssa.CallCommon,
 			return ex.applyContract(c, key, sig, pnames, ptypes, all, st, in)
 		}
 		ex.havoc("call of " + key + " (no contract)")
+		if ex.ct != nil && ex.ct.NoPanic && !ex.cs.IsHarmless(key) {
+			ex.addObl("safe", "callee-without-contract-"+sanitizeLabel(shortFn(key)), ex.ct.Props, st, "false", ex.pos(in), "nopanic: the interface method "+shortFn(key)+" has neither an assumed contract nor an entry in the harmless list")
+		}
 		return ex.havocCall(com.Signature(), args, com.Args, st, "ext")
 	}
 	fv := ex.val(fr, st, com.Value)
@@ -354,6 +357,11 @@ func (ex *Exec) call(fr *Frame, st *State, instr ssa.Value, com *ssa.CallCommon,
 		}
 	} else {
 		ex.havoc("call of " + shortFn(name) + " (no contract)")
+		// a function that must not panic may only call external code whose behaviour is stated: an assumed contract
+		// in /verif/trusted, or an entry in the list of harmless presentation functions
+		if ex.ct != nil && ex.ct.NoPanic && !ex.cs.IsHarmless(name) {
+			ex.addObl("safe", "callee-without-contract-"+sanitizeLabel(shortFn(name)), ex.ct.Props, st, "false", ex.pos(in), "nopanic: the external function "+shortFn(name)+" has neither an assumed contract nor an entry in the harmless list")
+		}
 	}
 	return ex.havocCall(fn.Signature, args, com.Args, st, "res")
 }
